@@ -116,7 +116,7 @@ public:
         {
             dev[k] = opn2_init(rate);
             opn2_openBankData(dev[k], bank.data(), (long)bank.size());
-            opn2_switchEmulator(dev[k], OPNMIDI_VGM_DUMPER);
+            opn2_switchEmulator(dev[k], (looping && loopEndTick) ? OPNMIDI_EMU_GENS : OPNMIDI_VGM_DUMPER);   // (the dumper core stops a song at its loop end by design)
             opn2_setRawEventHook(dev[k], RawRecorder::cb, &rec[k]);
             opn2_setLoopEnabled(dev[k], (looping && loopEndTick) ? 1 : 0); if(looping && loopEndTick) opn2_setLoopCount(dev[k], 2);
             if(opn2_openData(dev[k], smf.data(), (unsigned long)smf.size()) != 0) { run.fail("wellformed-smf-rejected", "load", opn2_errorInfo(dev[k])); opn2_close(dev[k]); if(k) opn2_close(dev[0]); tapInstall(false); return; }
@@ -212,7 +212,7 @@ public:
         if(!run.failed() && tclass == 0)
         {
             OPN2_MIDIPlayer *fresh = opn2_init(rate);
-            opn2_openBankData(fresh, bank.data(), (long)bank.size()); opn2_switchEmulator(fresh, OPNMIDI_VGM_DUMPER); opn2_setLoopEnabled(fresh, (looping && loopEndTick) ? 1 : 0); if(looping && loopEndTick) opn2_setLoopCount(fresh, 2);
+            opn2_openBankData(fresh, bank.data(), (long)bank.size()); opn2_switchEmulator(fresh, (looping && loopEndTick) ? OPNMIDI_EMU_GENS : OPNMIDI_VGM_DUMPER); opn2_setLoopEnabled(fresh, (looping && loopEndTick) ? 1 : 0); if(looping && loopEndTick) opn2_setLoopCount(fresh, 2);
             if(opn2_openData(fresh, smf.data(), (unsigned long)smf.size()) == 0)
             {
                 opn2_setTempo(fresh, mult);
@@ -232,7 +232,7 @@ public:
             opn2_close(fresh);
         }
         // continuation
-        const int cont = (int)p.get("cont", 0);
+        const int cont = (looping && loopEndTick) ? 0 : (int)p.get("cont", 0);   // (the audio window oracle has no notion of repeated deliveries: looping runs use the twin continuation)
         if(!run.failed() && cont == 0)
         {
             rec[0].ev.clear(); rec[1].ev.clear(); int call = 0;
@@ -260,6 +260,8 @@ public:
                              (d < la.size() ? " (linear: call " + std::to_string(la[d].second) + ")" : "") + (d < lb.size() ? " (seek: call " + std::to_string(lb[d].second) + ")" : ""));
                 }
                 run.log.add(la.size());
+                if(getenv("VERIF_DEBUG")) fprintf(stderr, "DEBUG looping %d ls %u le %u t %.4f seekLimit %.4f events A %zu B %zu atEnd %d %d loopStartTime %.4f loopEndTime %.4f\n", (int)looping, loopStartTick, loopEndTick, t, seekLimit, la.size(), lb.size(), opn2_atEnd(dev[0]), opn2_atEnd(dev[1]), opn2_loopStartTime(dev[0]), opn2_loopEndTime(dev[0]));
+                if(looping && loopEndTick) { std::map<uint64_t, int> seen; int maxc = 0; for(size_t e = 0; e < la.size(); ++e) maxc = std::max(maxc, ++seen[la[e].first]); if(maxc >= 2) run.count("continuation_crossed_the_loop_end"); }
             }
         }
         else if(!run.failed() && tclass != 2)
